@@ -28,7 +28,8 @@ SESSION_MAIN = os.path.join(os.path.dirname(os.path.dirname(os.path.abspath(__fi
 
 POOL_HASHABLE = [0, 1, 2, 3, 'a', 'b', 'long string with spaces', 1.5, -2.25, None, {'$t': [1, 2]},
                  {'$t': ['a', {'$t': [1, None]}]}, {'$b': '00ff'}, 10 ** 20]
-POOL_ANY = POOL_HASHABLE + [[1, 2], [1, [2, 'x']], {'$d': [['k', 1], ['j', [2]]]}]
+POOL_ANY = POOL_HASHABLE + [[1, 2], [1, [2, 'x']], {'$d': [['k', 1], ['j', [2]]]},
+                            {'$d': [['default', 0], [1, 'one'], [{'$t': [0, 1]}, 'edge']]}, {'$d': [[2, 'b'], ['a', 1]]}]
 NOISE_IMPORTS = ['decimal', 'fractions', 'email.parser', 'xml.dom.minidom', 'sqlite3', 'csv', 'uuid']
 
 
@@ -58,6 +59,7 @@ def generate(rng, prop, tier):
     pool = list(POOL_HASHABLE if kind == 'raw' else POOL_ANY)
     if kind == 'pickle' and arg == 'json':
         pool = [p for p in pool if not (isinstance(p, dict) and ('$b' in p))]
+        pool = [p for p in pool if not (isinstance(p, dict) and '$d' in p and any(not isinstance(k, str) for k, _ in p['$d']))]
     if kind == 'raw' and label in ('file-src',):
         pool = [p for p in pool]
     rng.shuffle(pool)
